@@ -8,7 +8,7 @@ length / re-import clauses and holds for every word type and history (induction 
 
   P1  write_bit stores the new bit at the position the mask points to afterwards, and that position is pre+1; a fresh
       word starts at position 0 holding the bit at position 0; the word is flushed exactly when position BITS would be next.
-  P2  StackCoder::read_bit tests the bit at the position the mask points to and leaves the mask at pre-1: it undoes P1;
+  P2  StackCoder::read_bit tests the bit at the position the mask points to, clears it and leaves the mask at pre-1: it undoes P1;
       after fetching a word it starts at position BITS-1, the last position P1 fills before it flushes.
   P3  QueueDecoder::read_bit tests the bit at the mask and moves to pre+1; after fetching a word it tests position 0 and
       leaves the mask at 1: it replays P1 in the same order.
@@ -169,6 +169,16 @@ def check_read(ctx, F, b, who, mask_field, step, fresh_test, fresh_post):
             ok = exp_is(m, 1, step) or (step < 0 and m == 'none')
             if not ok:
                 return ctx.bad('R4', role, b.defpath, 'the mask moves from p to %s (expected p%+d)' % (exp_str(m), step), key=key, loc=rules.loc(b))
+            if step < 0:
+                # a stack that is written again after a read ORs new bits in: the popped bit must be cleared
+                w = _field(ev, r, 'current_word')
+                W0, M0 = ('in', (1, 'deref', ('f', 'current_word'))), _mask_in(mask_field)
+                tested_bit = sym.mk_bin('BitAnd', W0, M0)
+                cleared = (w == sym.mk_bin('BitXor', W0, tested_bit)) or (w[0] == 'bin' and w[1] == 'BitAnd' and W0 in (w[2], w[3]) and any(
+                    isinstance(o, tuple) and o and ((o[0] == 'un' and o[1] == 'Not' and o[2] == M0) or (o[0] == 'not' and o[1] == M0)) for o in (w[2], w[3])))
+                if not cleared:
+                    return ctx.bad('R4', role, b.defpath, 'the popped bit is not cleared from current_word (it ends as %s): write_bit ORs new bits into the word and relies on the bits above the mask being zero, so a 0 written after a popped 1 reads back as 1, and the export marker search sees stale bits' % sym.show(w)[:80],
+                                   key=key, loc=rules.loc(b))
         else:
             n_fresh += 1
             if not any(exp_is(t, 0, fresh_test[1], fresh_test[0]) for t in tested):
